@@ -1,1 +1,221 @@
-/-! C13 — property theorems (none yet). -/
+import Req.H1.BufLine
+import Req.Lemmas.BufLine
+/-!
+C13 — dump is transparent and faithful: property theorems.
+
+Part 1 (this section): the response-header line reader.
+`dump_readline_equiv`   — the dumping `readLine` installed by `newTextprotoReader` returns the
+                          same (line, isPrefix, err) and leaves the bufio reader in the same state
+                          as `bufio.ReadLine`, for every buffer size, every reader state and every
+                          read script (hence for every line length, also > B).
+`dump_readline_exact`   — what it hands to the dumper is exactly what it consumed.
+`dump_readlineslice_*`  — the same two facts for `readLineSlice` (the accumulation loop), i.e.
+                          for whole status / header lines of any length.
+`dump_prog_*`           — and for ANY parser written on top of `readLine` plus direct reader
+                          access (ReadMIMEHeader, readContinuedLineSlice, …).
+`old_dump_readline_*`   — the closure as it stands in the pinned tree is NOT equivalent: witness
+                          for B = 16 (replayed on the implementation with B = 4096 by the lane);
+                          it agrees whenever no line reaches the buffer size.
+-/
+namespace Req.Props.C13
+open Req.Proto Req.H1.BufLine
+
+/-! ### the dumping readLine is `bufio.ReadLine` -/
+
+/-- **dump_readline_equiv**: same result, same reader state. (`16 ≤ B` is what
+`bufio.NewReaderSize` guarantees; the equality needs no bound.) -/
+theorem dump_readline_equiv (B : Nat) (_hB : 16 ≤ B) (st : Rd) :
+    ((dumpReadLine B st).1, (dumpReadLine B st).2.1) = readLine B st := by
+  cases h : readSlice B st with
+  | mk r st1 =>
+    simp only [dumpReadLine, readLine, h]
+    split <;> split <;> rfl
+
+/-- **dump_readline_exact**: dumped bytes ++ everything still unread = everything that was
+unread before: the dump is exactly the consumed bytes (a put-back '\r' is dumped by the call
+that finally consumes it). -/
+theorem dump_readline_exact (B : Nat) (st : Rd) :
+    (dumpReadLine B st).2.2 ++ (dumpReadLine B st).2.1.bytes = st.bytes := by
+  have hc := readSlice_bytes B st
+  cases h : readSlice B st with
+  | mk r st1 =>
+    rw [h] at hc
+    simp only [dumpReadLine, h]
+    simp only [Rd.bytes] at hc ⊢
+    split
+    · split
+      · next hcr =>
+        rw [← hc]
+        conv => rhs; rw [← lastIs_dropLast hcr]
+        simp
+      · exact hc
+    · split
+      · next he => simpa [he] using hc
+      · exact hc
+
+example : (dumpReadLine 16 (Rd.ofSrc [⟨[72, 105, 13, 10, 88], none⟩])) =
+    (⟨[72, 105], false, none⟩, ⟨[88], none, []⟩, [72, 105, 13, 10]) := by decide
+
+theorem plain_readline_dumps_nothing (B : Nat) (st : Rd) : (plainReadLine B st).2.2 = [] := by
+  simp [plainReadLine]
+
+/-! ### whole lines: `readLineSlice` -/
+
+theorem readLineSliceLoop_congr (rl1 rl2 : LineFn)
+    (h : ∀ st, ((rl1 st).1, (rl1 st).2.1) = ((rl2 st).1, (rl2 st).2.1))
+    (lim : Option Nat) (f : Nat) (acc d1 d2 : Bytes) (st : Rd) :
+    (readLineSliceLoop rl1 lim f acc d1 st).res = (readLineSliceLoop rl2 lim f acc d2 st).res ∧
+    (readLineSliceLoop rl1 lim f acc d1 st).st = (readLineSliceLoop rl2 lim f acc d2 st).st := by
+  induction f generalizing acc d1 d2 st with
+  | zero => simp [readLineSliceLoop]
+  | succ f ih =>
+    have hs := h st
+    cases h1 : rl1 st with
+    | mk r1 p1 =>
+      cases p1 with
+      | mk s1 e1 =>
+        cases h2 : rl2 st with
+        | mk r2 p2 =>
+          cases p2 with
+          | mk s2 e2 =>
+            rw [h1, h2] at hs
+            simp only [Prod.mk.injEq] at hs
+            obtain ⟨rfl, rfl⟩ := hs
+            simp only [readLineSliceLoop, h1, h2]
+            split
+            · simp
+            · split
+              · simp
+              · split
+                · exact ih _ _ _ _
+                · simp
+
+/-- **dump_readlineslice_equiv**: a whole line of ANY length (also many times the buffer size)
+is read identically — same bytes or same error, same reader state — with and without dump. -/
+theorem dump_readlineslice_equiv (B : Nat) (_hB : 16 ≤ B) (lim : Option Nat) (st : Rd) :
+    (readLineSlice (dumpReadLine B) lim st).res = (readLineSlice (plainReadLine B) lim st).res ∧
+    (readLineSlice (dumpReadLine B) lim st).st = (readLineSlice (plainReadLine B) lim st).st := by
+  apply readLineSliceLoop_congr
+  intro st
+  rw [dump_readline_equiv B _hB st]
+  simp [plainReadLine]
+
+theorem readLineSliceLoop_exact (rl : LineFn)
+    (h : ∀ st, (rl st).2.2 ++ (rl st).2.1.bytes = st.bytes)
+    (lim : Option Nat) (f : Nat) (acc d : Bytes) (st : Rd) :
+    (readLineSliceLoop rl lim f acc d st).dumped ++ (readLineSliceLoop rl lim f acc d st).st.bytes
+      = d ++ st.bytes := by
+  induction f generalizing acc d st with
+  | zero => simp [readLineSliceLoop]
+  | succ f ih =>
+    have hs := h st
+    cases h1 : rl st with
+    | mk r1 p1 =>
+      cases p1 with
+      | mk s1 e1 =>
+        rw [h1] at hs
+        simp only at hs
+        simp only [readLineSliceLoop, h1]
+        split
+        · simp [← hs]
+        · split
+          · simp [← hs]
+          · split
+            · rw [ih]; simp [← hs]
+            · simp [← hs]
+
+/-- **dump_readlineslice_exact**: the dump of reading one line is exactly the bytes the read
+consumed (terminator included), whatever the line length and the read sizes. -/
+theorem dump_readlineslice_exact (B : Nat) (lim : Option Nat) (st : Rd) :
+    (readLineSlice (dumpReadLine B) lim st).dumped ++ (readLineSlice (dumpReadLine B) lim st).st.bytes
+      = st.bytes := by
+  have := readLineSliceLoop_exact (dumpReadLine B) (dump_readline_exact B) lim
+    (st.bytes.length + 2) [] [] st
+  simpa [readLineSlice] using this
+
+-- a 20-byte line through a 16-byte buffer, delivered in two reads
+example : (readLineSlice (dumpReadLine 16) none
+      (Rd.ofSrc [⟨[88, 45, 65, 58, 32, 97, 97, 97, 97, 97], none⟩,
+                 ⟨[97, 97, 97, 97, 97, 97, 97, 97, 13, 10, 89], none⟩])).res
+    = .ok [88, 45, 65, 58, 32, 97, 97, 97, 97, 97, 97, 97, 97, 97, 97, 97, 97, 97] := by decide
+
+/-! ### any parser on top of the reader -/
+
+/-- **dump_prog_equiv**: every parser built from `readLine` calls and direct reader access
+computes the same result and leaves the same reader state with the dumping `readLine`. -/
+theorem dump_prog_equiv {α : Type} (B : Nat) (hB : 16 ≤ B) (p : Prog α) (st : Rd) (d d' : Bytes)
+    (e e' : Bool) :
+    (p.run (dumpReadLine B) e st d).1 = (p.run (plainReadLine B) e' st d').1 ∧
+    (p.run (dumpReadLine B) e st d).2.1 = (p.run (plainReadLine B) e' st d').2.1 := by
+  induction p generalizing st d d' with
+  | ret a => simp [Prog.run]
+  | line k ih =>
+    have hs := dump_readline_equiv B hB st
+    cases h1 : dumpReadLine B st with
+    | mk r1 p1 =>
+      cases p1 with
+      | mk s1 e1 =>
+        rw [h1] at hs
+        simp only [Prog.run, h1, plainReadLine, ← hs]
+        exact ih _ _ _ _
+  | look k ih => simp only [Prog.run]; exact ih _ _ _ _
+  | upd f k ih => simp only [Prog.run]; exact ih _ _ _
+  | eat f k ih =>
+    simp only [Prog.run]
+    cases f st with
+    | mk e1 s1 => exact ih _ _ _ _
+
+/-- **dump_prog_exact**: for such a parser the dump is exactly the consumed bytes. -/
+theorem dump_prog_exact {α : Type} (B : Nat) (p : Prog α) (hp : p.Accounted) (st : Rd) (d : Bytes) :
+    (p.run (dumpReadLine B) true st d).2.2 ++ (p.run (dumpReadLine B) true st d).2.1.bytes
+      = d ++ st.bytes := by
+  induction p generalizing st d with
+  | ret a => simp [Prog.run]
+  | line k ih =>
+    have hs := dump_readline_exact B st
+    cases h1 : dumpReadLine B st with
+    | mk r1 p1 =>
+      cases p1 with
+      | mk s1 e1 =>
+        rw [h1] at hs
+        simp only at hs
+        simp only [Prog.run, h1]
+        rw [ih _ (hp r1)]
+        simp [← hs]
+  | look k ih => simp only [Prog.run]; exact ih _ (hp st) _ _
+  | upd f k ih => simp only [Prog.run]; rw [ih hp.2, hp.1]
+  | eat f k ih =>
+    have hs := hp.1 st
+    simp only [Prog.run]
+    cases h1 : f st with
+    | mk e1 s1 =>
+      rw [h1] at hs
+      simp only at hs
+      simp only [if_true]
+      rw [ih _ (hp.2 e1)]
+      simp [← hs]
+
+/-! ### the closure as it stands in the pinned tree -/
+
+/-- **old_dump_readline_not_equiv**: with a 16-byte buffer and a 20-byte header line the
+closure of the pinned tree returns the first 16 bytes as a COMPLETE line (`isPrefix = false`)
+where `bufio.ReadLine` reports a prefix: `readLineSlice` then yields a truncated line and the
+remainder is parsed as the next header ("malformed MIME header: missing colon"). -/
+theorem old_dump_readline_not_equiv :
+    ∃ st : Rd, (dumpReadLineOld 16 st).1 ≠ (readLine 16 st).1 ∧
+      (readLineSlice (dumpReadLineOld 16) none st).res ≠ (readLineSlice (plainReadLine 16) none st).res :=
+  ⟨Rd.ofSrc [⟨[88, 45, 65, 58, 32, 97, 97, 97, 97, 97, 97, 97, 97, 97, 97, 97, 97, 97, 13, 10], none⟩],
+    by decide, by decide⟩
+
+/-- …and it is equivalent exactly as long as `ReadSlice` never reports a full buffer, which is
+why the 141 tests (short header lines) never see it. -/
+theorem old_dump_readline_equiv_when_fits (B : Nat) (st : Rd)
+    (h : (readSlice B st).1.err ≠ some .bufferFull) :
+    dumpReadLineOld B st = dumpReadLine B st := by
+  cases h1 : readSlice B st with
+  | mk r st1 =>
+    rw [h1] at h
+    simp only [dumpReadLineOld, dumpReadLine, h1]
+    simp [h]
+
+end Req.Props.C13
